@@ -324,9 +324,11 @@ class CheckCiphertextHash(Spec):
 def extra_checks(rep, tier):
     # wrong plaintext is wrong bytes too: the AES-CTR positioning contract of C04 is re-run under this property
     n0 = len(rep.violations)
-    C04.extra_checks(rep, tier)
+    C04.aes_check(rep, tier)
     for v in rep.violations[n0:]:
         v["property"] = "C02"
+    from contracts import immutable_grid
+    immutable_grid.grid_check(rep, tier, "C02")
 
 
 def contracts(tier):
